@@ -181,8 +181,7 @@ def soft_rules(chk, cfgname, m, mod):
 
 def run(chk, facts_by_config):
     chk.trusted += ['the rewrite rules of analysis/terms.py', 'purity of the AES CPU intrinsics']
-    chk.undecided += ['AESENC / AESE+AESMC / the bitsliced round are the FIPS-197 round transformations',
-                      'mix_columns / inv_mix_columns mutual inverses and round consistency for the intrinsic implementations']
+    chk.trusted += ['FIPS-197 as transcribed in analysis/c02.py; Intel SDM / Arm ARM definitions of the AES instructions as transcribed in analysis/c02_hw.py']
     for cfgname, F in facts_by_config.items():
         if 'hazmat' not in F.meta['cfg']['features']:
             continue
@@ -305,5 +304,16 @@ def run(chk, facts_by_config):
                 nS = soft_rules(chk, cfgname, m, mod)
                 if nS is not None:
                     chk.floor('soft-rules', nS, 'Soft.' + cfgname)
+            import c17_fips
+            nR = 0
+            for mod in sorted(set(f['path'].rsplit('::', 1)[0] for f in m.fns if f['path'].endswith('::hazmat::cipher_round_par')
+                                  and not f['path'].startswith('aes::hazmat'))):
+                r = c17_fips.fips_rules(chk, cfgname, m, mod)
+                if r is None:
+                    nR = None          # undecided (anchors renamed): recorded as such, no floor
+                    break
+                nR += r
+            if nR is not None:
+                chk.floor('R-round-is-fips', nR, 'R.' + cfgname)
         chk.floor('H-dispatch', nH, 'H.' + cfgname)
         chk.floor('P', nP, 'P.' + cfgname)
